@@ -2,6 +2,7 @@ package props
 
 import (
 	"fmt"
+	"math"
 	"strings"
 
 	"github.com/flanglet/kanzi-go/v2/verifharness/model"
@@ -561,53 +562,81 @@ func C11(c *Case) *Result {
 	res.Render["blocks"] = nblocks
 	res.Render["damaged_blocks"] = len(damaged)
 	ranges := 0
-	for from := 1; from <= nblocks+3; from++ {
-		for to := from; to <= nblocks+3; to++ {
-			spec := cfg.readerSpec()
-			spec.From, spec.To = from, to
-			spec.Jobs = 1 + t.Intn(8)
-			if expensiveEntropy(cfg) {
-				spec.Jobs = min(spec.Jobs, 2)
-			}
-			use := stream
-			touches := false
-			for k := range damaged {
-				if k >= from && k < to {
-					touches = true
-				}
-			}
-			if len(damaged) > 0 && !touches {
-				use = dstream
-				res.Probes["range.avoiding.damaged.blocks"]++
-			}
-			lo := min((from-1)*B, len(data))
-			hi := min((to-1)*B, len(data))
-			want := data[lo:hi]
-			ro := simDecode(c, res, sim.Hooks{}, spec, use, sizes, 0, len(data)+2*B+64)
-			ranges++
-			if res.Verdict == "fail" {
-				res.Detail = fmt.Sprintf("range [%d,%d): %s", from, to, res.Detail)
-				return res
-			}
-			if ro.NewErr != nil || ro.Panic != nil {
-				return res.fail("reader-broken", "range [%d,%d): constructor error %v / panic %v", from, to, ro.NewErr, ro.Panic)
-			}
-			if !isEOF(ro.Err) {
-				return res.fail("range-error", "range [%d,%d) of %d blocks, decoder jobs %d: read failed after %d bytes: %v", from, to, nblocks, spec.Jobs, len(ro.Data), ro.Err)
-			}
-			if d := diffAt(ro.Data, want); d >= 0 {
-				return res.fail("range-mismatch", "range [%d,%d) of %d blocks (block size %d), decoder jobs %d: got %d bytes, want %d (bytes %d..%d of the original); first difference at %d", from, to, nblocks, B, spec.Jobs, len(ro.Data), len(want), lo, hi, d)
-			}
-			if from == to {
-				res.Probes["range.empty"]++
-			}
-			if from > nblocks {
-				res.Probes["range.beyond.end"]++
-			}
-			if (to-from) > 0 && from-1 >= spec.Jobs {
-				res.Probes["batch.all.skipped"]++
+	try := func(from, to int) *Result {
+		spec := cfg.readerSpec()
+		spec.From, spec.To = from, to
+		spec.Jobs = 1 + t.Intn(8)
+		if expensiveEntropy(cfg) {
+			spec.Jobs = min(spec.Jobs, 2)
+		}
+		use := stream
+		touches := false
+		for k := range damaged {
+			if k >= from && k < to {
+				touches = true
 			}
 		}
+		if len(damaged) > 0 && !touches {
+			use = dstream
+			res.Probes["range.avoiding.damaged.blocks"]++
+		}
+		lo, hi := len(data), len(data)
+		if from <= nblocks {
+			lo = (from - 1) * B
+		}
+		if to <= nblocks {
+			hi = (to - 1) * B
+		}
+		want := data[lo:hi]
+		ro := simDecode(c, res, sim.Hooks{}, spec, use, sizes, 0, len(data)+2*B+64)
+		ranges++
+		if res.Verdict == "fail" {
+			res.Detail = fmt.Sprintf("range [%d,%d): %s", from, to, res.Detail)
+			return res
+		}
+		if ro.NewErr != nil || ro.Panic != nil {
+			return res.fail("reader-broken", "range [%d,%d): constructor error %v / panic %v", from, to, ro.NewErr, ro.Panic)
+		}
+		if !isEOF(ro.Err) {
+			return res.fail("range-error", "range [%d,%d) of %d blocks, decoder jobs %d: read failed after %d bytes: %v", from, to, nblocks, spec.Jobs, len(ro.Data), ro.Err)
+		}
+		if d := diffAt(ro.Data, want); d >= 0 {
+			return res.fail("range-mismatch", "range [%d,%d) of %d blocks (block size %d), decoder jobs %d: got %d bytes, want %d (bytes %d..%d of the original); first difference at %d", from, to, nblocks, B, spec.Jobs, len(ro.Data), len(want), lo, hi, d)
+		}
+		if from == to {
+			res.Probes["range.empty"]++
+		}
+		if from > nblocks {
+			res.Probes["range.beyond.end"]++
+		}
+		if (to-from) > 0 && from-1 >= spec.Jobs {
+			res.Probes["batch.all.skipped"]++
+		}
+		return nil
+	}
+	for from := 1; from <= nblocks+3; from++ {
+		for to := from; to <= nblocks+3; to++ {
+			if r := try(from, to); r != nil {
+				return r
+			}
+		}
+	}
+	// bounds far beyond the last block ("to the end" sentinels of callers, values that do not fit
+	// 32 bits): same slices as with to = nblocks+1, empty when from is that large
+	far := []int{math.MaxInt32, 1 << 31, 1<<32 + 3, 1 << 40, math.MaxInt}
+	for k := 0; k < 3; k++ {
+		from := 1 + t.Intn(nblocks+1)
+		if k == 2 {
+			from = far[t.Intn(len(far)-1)]
+		}
+		to := far[t.Intn(len(far))]
+		if to < from {
+			to = from
+		}
+		if r := try(from, to); r != nil {
+			return r
+		}
+		res.Probes["range.far.bound"]++
 	}
 	res.Probes["ranges"] += ranges
 	res.NonTriv = ranges > 1
